@@ -197,6 +197,11 @@ def gen_case(rng, span=4.0):
         return {"fn": fn, "args": args, "k": lu(rng, -2, 2), "np": forms}
     if rng.random() >= 0.3:
         args["tcr"] = lu(rng, -8, math.log10(2e-2))
+        if rng.random() < 0.1:
+            # a strongly temperature dependent material (PTC-like), cold: the documented expression is affine in temp wherever it is
+            # evaluated - also where 1 + tcr*(temp-20) comes out at or below zero
+            args["tcr"] = float("%.3g" % lu(rng, math.log10(0.05), 0.0))
+            args["temp"] = float("%.3g" % rng.uniform(0.5, 19.5))
     return {"fn": fn, "args": args, "k": lu(rng, -2, 2)}
 
 
